@@ -1,6 +1,8 @@
 """C14 — connection slots are bounded by MaxConnections and always given back."""
 
 MODULE = "DtailModel.Props.C14"
+# translated packages (tie G) this property's theorems rest on
+GEN_UNITS = ("Conn",)
 # scripts with real waits: a disagreement counts only if it reproduces when re-run alone (flake policy, DESIGN 2.3)
 TIMED_OPS = ("c14.script",)
 GROUPS = ["C14"]
@@ -12,8 +14,8 @@ LEVEL_TEXT = ("Lean theorem C14_full_holds: for every MaxConnections and every h
               "handshakes, any number of shell requests and closes, the reported number of connections equals the number actually open, is "
               "never negative and never exceeds the limit; C14_accept_iff: a connect is accepted exactly when fewer are open; tied to the "
               "code by scripted histories against a real in-process server (server.New().Start), the harness speaking SSH itself and reading "
-              "the counter after every step; every step also observes the ESTABLISHED sockets the server side holds (/proc/self/net/tcp) and demands counter = sockets; peers that stay silent for 11 s and more before they log in")
-TRUSTED = ["Lean 4 kernel", "axioms: propext, Quot.sound, Classical.choice (at most)", "overlay harness + dtmodel driver + this diff",
+              "the counter after every step; every step also observes the ESTABLISHED sockets the server side holds (/proc/self/net/tcp) and demands counter = sockets; peers that stay silent for 11 s and more before they log in; tie G: serverLimitExceeded / incrementConnections / decrementConnections of internal/server/stats.go are translated on every run and C14_generated_counter_refines_model proves them to be the counter operations of the model's steps (the mutex and the log line are outside the translation); the driver steps the translated counter beside the model in every script")
+TRUSTED = ["Lean 4 kernel", "axioms: propext, Quot.sound, Classical.choice (at most)", "overlay harness + dtmodel driver + this diff", "Go->Lean translator (unit Conn) with its prelude GoRT; that listenerLoop calls the limit test, then either closes or increments before handing the connection on, and handleConnection defers the decrement, is observed by the scripted histories, not translated",
            "modelled not verified: golang.org/x/crypto/ssh (NewServerConn fails for bad credentials and vanished clients, the channel stream "
            "of a connection ends when the connection ends), the TCP stack, goroutine scheduling (one interleaving per script)"]
 ASSUMPTIONS = ["listener.Accept is called from one goroutine (limit check and slot reservation are not interleaved with another accept)"]
